@@ -1,4 +1,4 @@
 package main
 
-// W2 placeholder: filled in by the magnitude engine (mag.go) when present.
-func rulesW2(cx *Ctx) []Obligation { return nil }
+// W2: the honest-fit obligations of the magnitude analysis (magnitude.go), as part of C02
+func rulesW2(cx *Ctx) []Obligation { return rulesMagnitude(cx, "C02") }
